@@ -4,12 +4,12 @@
 import HLV.Props.HoldFamily
 namespace HLV
 
--- @theorem C17_debug_never_blocks_and_restores_holds : Debug-formatting a lock or collection of any shape, from any hold state of the caller (including holding the very locks being formatted), issues no blocking acquisition, and whether it returns or unwinds the caller's holds are exactly what they were
-theorem C17_debug_never_blocks_and_restores_holds (n : Nat) (ro : RankOpt) (S : Shape) (g : HG) (hd : 0 < g.depth) :
-    wp (HoldSpec n ro) (debugFmt S) (fun _ g' => g'.held = g.held ∧ g'.depth = g.depth)
+-- @theorem C17_debug_never_blocks_and_restores_holds : Debug-formatting a lock or collection of any shape, from any hold state of the caller (including holding the very locks being formatted), issues no blocking acquisition, and whether it returns or unwinds — because a raw operation faults or because the payload's own Debug impl panics (bomb, at any leaf) — the caller's holds are exactly what they were
+theorem C17_debug_never_blocks_and_restores_holds (n : Nat) (ro : RankOpt) (bomb : Option LockId) (S : Shape) (g : HG) (hd : 0 < g.depth) :
+    wp (HoldSpec n ro) (debugFmt bomb S) (fun _ g' => g'.held = g.held ∧ g'.depth = g.depth)
       (fun _ g' => g'.held = g.held ∧ g'.depth = g.depth) g := by
   have _ := hd
-  exact debugFmt_spec S g _ _ (fun _ a b => ⟨a, b⟩) (fun _ a b => ⟨a, b⟩)
+  exact debugFmt_spec bomb S g _ _ (fun _ a b => ⟨a, b⟩) (fun _ a b => ⟨a, b⟩)
 
 -- @theorem C17_nonacquiring_statements_keep_everything : the statements dbg, is_poisoned, clear_poison, ThreadKey::get/drop/forget leave the thread's holds empty-as-found on every answer sequence (no obligation of the hold discipline is violated inside them: in particular nothing blocks at depth > 0)
 theorem C17_nonacquiring_statements_keep_everything (n : Nat) (ro : RankOpt) (C : Ctx) (st : Stmt)
@@ -20,10 +20,10 @@ theorem C17_nonacquiring_statements_keep_everything (n : Nat) (ro : RankOpt) (C 
   cases st <;> first | trivial | exact absurd hna id
 
 -- @theorem C17_debug_inside_a_hold_is_harmless : a Debug step inside a guard's life or a scoped closure (on any collection, also the one being held) keeps the session's holds; the session still ends with nothing held
-theorem C17_debug_inside_a_hold_is_harmless (n : Nat) (ro : RankOpt) (C : Ctx) (S : Shape) (m : Mode) (c : Nat)
+theorem C17_debug_inside_a_hold_is_harmless (n : Nat) (ro : RankOpt) (C : Ctx) (S : Shape) (m : Mode) (c : Nat) (bomb : Option LockId)
     (rest : List BodyStep) (hrest : ∀ b ∈ rest, stepOK S m b) (g : HG)
     (hc : g.held.Covers (holdsOf S m)) :
-    wp (HoldSpec n ro) (bodySteps C S (.dbg c :: rest)) (fun _ g' => g'.held = g.held ∧ g'.depth = g.depth)
+    wp (HoldSpec n ro) (bodySteps C S (.dbg c bomb :: rest)) (fun _ g' => g'.held = g.held ∧ g'.depth = g.depth)
       (fun _ g' => g'.held = g.held ∧ g'.depth = g.depth) g :=
   bodySteps_spec C S m _ g _ _ hc
     (by intro b hb; rcases List.mem_cons.1 hb with rfl | h; exact trivial; exact hrest b h)
